@@ -344,4 +344,4 @@ def run(case, ctx):
 
 def stages(tier):
     return [{"name": "hist", "kind": "hyp", "strategy": strategy, "run": run,
-             "examples": {"quick": 15000, "thorough": 400000}, "shards": 16}]
+             "examples": {"quick": 30000, "thorough": 400000}, "shards": 16}]
